@@ -8,6 +8,7 @@ mod pool_drv;
 mod server_drv;
 mod unicode_drv;
 mod gen_schema;
+mod link_drv;
 
 use std::io::Write;
 
@@ -16,6 +17,9 @@ fn main() {
   if args.len() < 4 {
     eprintln!("usage: nwv <driver> <cases.json> <out.json>");
     std::process::exit(2);
+  }
+  if std::env::var("NWV_TRACE").is_ok() {
+    let _ = tracing_subscriber::fmt().with_max_level(tracing_subscriber::filter::LevelFilter::TRACE).with_writer(std::io::stderr).try_init();
   }
   // Panics are observations, not noise.
   std::panic::set_hook(Box::new(|_| {}));
@@ -29,6 +33,8 @@ fn main() {
     "outbound" => outbound_drv::run(&cases),
     "pool" => pool_drv::run(&cases),
     "client" => client_drv::run(&cases),
+    "link" => link_drv::run(&cases),
+    "s2mclient" => link_drv::run_client(&cases),
     other => {
       eprintln!("unknown driver {other}");
       std::process::exit(2);
